@@ -337,10 +337,12 @@ structure Cfg where
   fixNoiseFeedbacks : Bool
   /-- Flatten also flattens the logged action -/
   fixFlattenLogged : Bool
+  /-- Harden (in Finalize) only hardens the lazy actions of a mixed action set -/
+  fixHardenMixed : Bool
   deriving Repr, Inhabited
 
-def Cfg.fixed : Cfg := ⟨true, true, true, true, true, true⟩
-def Cfg.asIs : Cfg := ⟨false, false, false, false, false, false⟩
+def Cfg.fixed : Cfg := ⟨true, true, true, true, true, true, true⟩
+def Cfg.asIs : Cfg := ⟨false, false, false, false, false, false, false⟩
 
 /-! ## Re-keying: how a filter carries the reward function over to the new actions -/
 
@@ -1133,12 +1135,18 @@ def isLazy : Val → Bool
   | .lazy _ _ => true
   | _ => false
 
+/-- `list(value)` -/
 def hardenVal (v : Val) : Except Err Val :=
-  match denseItems v with
-  | some items => .ok (.list items)
-  | none => .error .typeError
+  match iterItems v with
+  | .ok items => .ok (.list items)
+  | .error e => .error e
 
-def hardenPlans (s : List Inter) : Except Err (List Plan) :=
+/-- one action of a dense, not materialised action list: as-is every action goes through `list(…)`
+(a tuple or a string next to the lazy rows becomes a list), repaired only the lazy ones do -/
+def hardenAction (fixMixed : Bool) (v : Val) : Except Err Val :=
+  if fixMixed && !isLazy v then .ok v else hardenVal v
+
+def hardenPlans (cfg : Cfg) (s : List Inter) : Except Err (List Plan) :=
   match s with
   | [] => .ok []
   | first :: _ =>
@@ -1150,12 +1158,12 @@ def hardenPlans (s : List Inter) : Except Err (List Plan) :=
       | .error e => .error e
       | .ok ctx =>
         match (match ha, I.actions with
-               | true, some as => (match mapM' hardenVal as with | .ok as' => Except.ok (some as') | .error e => .error e)
+               | true, some as => (match mapM' (hardenAction cfg.fixHardenMixed) as with | .ok as' => Except.ok (some as') | .error e => .error e)
                | _, x => .ok x) with
         | .error e => .error e
         | .ok acts =>
           match (match hx, I.action with
-                 | true, some x => (match hardenVal x with | .ok x' => Except.ok (some x') | .error e => .error e)
+                 | true, some x => (match hardenAction cfg.fixHardenMixed x with | .ok x' => Except.ok (some x') | .error e => .error e)
                  | _, x => .ok x) with
           | .error e => .error e
           | .ok act => .ok { context := ctx, actions := acts, action := act, polR := .keep, polF := .keep }) s
@@ -1229,7 +1237,7 @@ def plansOf (cfg : Cfg) (st : Step) (s : List Inter) : Except Err (List Plan) :=
   | .sparsify c a => sparsifyPlans cfg c a s
   | .densify n m c a => densifyPlans cfg m n c a s
   | .noise c a o => noisePlans cfg c a o s
-  | .harden => hardenPlans s
+  | .harden => hardenPlans cfg s
   | .wrapSeqs => .ok (wrapPlans s)
   | .cycle after => cyclePlans after s
   | _ => .error .unmodelled
@@ -1506,6 +1514,9 @@ def wNoiseLogged : List Inter :=
 def wNoiseFeedbacks : List Inter :=
   [{ actions := some [.num 1, .num 2], rewards := some (.seq true [1, 2]),
      feedbacks := some (.fn [(.num 1, 5), (.num 2, 6)] (-999)) }]
+/-- a mixed action set as Densify(action=True) leaves it: a SparseDense row next to a plain tuple -/
+def wHardenMixed : List Inter :=
+  [{ actions := some [.lazy [(0, .num 1)] 2, .tuple [.num 1, .num 2]], rewards := some (.binary (.tuple [.num 1, .num 2]) 1) }]
 def wFlattenLogged : List Inter :=
   [{ actions := some [.tuple [.num 1, .tuple [.num 2]], .tuple [.num 3, .tuple [.num 4]]],
      action := some (.tuple [.num 3, .tuple [.num 4]]), reward := some (1/2), probability := some (1/4) }]
